@@ -160,6 +160,32 @@ pub fn gen_frag_history(r: &mut Rng, o: &FragOpts) -> (FHistory, Option<av1::Seq
                 *data = crate::gen::frames::video_frame(r, cfg.vcodec, kind, n, false);
             }
         }
+    } else if (cfg.vcodec == H264 || cfg.vcodec == H265) && r.chance(1, 6) {
+        // length-prefixed access units (what an MP4-oriented encoder hands over) whose slice type
+        // is independent of the submitted sync flag: pipelines that flag only the first frame,
+        // or that flag every frame; the submitted flag is what the segment must carry
+        let two = cfg.vcodec == H265;
+        for op in ops.iter_mut() {
+            if let FOp::Write { data, .. } = op {
+                let mut d = Vec::new();
+                let mut put = |nal: &[u8]| {
+                    d.extend_from_slice(&(nal.len() as u32).to_be_bytes());
+                    d.extend_from_slice(nal);
+                };
+                if r.chance(1, 2) {
+                    if two { put(&[35 << 1, 1, 0x50]) } else { put(&[0x09, 0xf0]) };
+                }
+                let mut nal = if two {
+                    vec![*r.pick(&[19u8 << 1, 20 << 1, 21 << 1, 1 << 1, 0]), 1]
+                } else {
+                    vec![*r.pick(&[0x65u8, 0x25, 0x45, 0x05, 0x41, 0x01, 0x21, 0x61])]
+                };
+                let n = r.range(1, 24) as usize;
+                nal.extend(r.bytes(n));
+                put(&nal);
+                *data = d;
+            }
+        }
     }
     (FHistory { cfg, ops }, side)
 }
